@@ -302,6 +302,11 @@ class MiniEval:
                         return False
                     left = right
                     continue
+                if isinstance(op, (ast.Is, ast.IsNot)) and (right is None or left is None or isinstance(right, bool)):
+                    if (left is right) != isinstance(op, ast.Is):
+                        return False
+                    left = right
+                    continue
                 t = {ast.Lt: left < right if _cmp(left, right) else None, ast.LtE: left <= right if _cmp(left, right) else None,
                      ast.Gt: left > right if _cmp(left, right) else None, ast.GtE: left >= right if _cmp(left, right) else None,
                      ast.Eq: left == right, ast.NotEq: left != right}.get(type(op), "x")
@@ -322,6 +327,18 @@ class MiniEval:
                     return {"ord": ord, "chr": chr, "int": int, "len": len, "str": str, "abs": abs, "bool": bool}[d](self._ev(e.args[0], env))
                 except (ValueError, TypeError) as ex:
                     raise Raised(f"{type(ex).__name__}: {ex}")
+            if d in ("math.sqrt", "math.ceil", "math.floor", "np.sqrt", "np.ceil", "np.floor") and len(e.args) == 1 and not e.keywords:
+                import math
+                v = self._ev(e.args[0], env)
+                if isinstance(v, (int, float)) and not isinstance(v, bool):
+                    try:
+                        return {"sqrt": math.sqrt, "ceil": math.ceil, "floor": math.floor}[d.split(".")[1]](v)
+                    except ValueError as ex:
+                        raise Raised(f"ValueError: {ex}")
+            if d == "round" and 1 <= len(e.args) <= 2 and not e.keywords:
+                a = [self._ev(x, env) for x in e.args]
+                if all(isinstance(x, (int, float)) and not isinstance(x, bool) for x in a):
+                    return round(*a)
             if d == "float" and len(e.args) == 1 and not e.keywords:
                 v = self._ev(e.args[0], env)
                 if isinstance(v, (int, float, str)) and not isinstance(v, bool):
